@@ -33,7 +33,7 @@ Init ==
     /\ defaultGas = IF c0.legacy /\ ~c0.v2 THEN -1 ELSE c0.defaultGas
     /\ admin = IF c0.legacy /\ ~c0.v2 THEN "legacy" ELSE "gov"
     /\ allow = IF c0.legacy /\ ~c0.v2 THEN [listed |-> FALSE, gas |-> -1] ELSE [listed |-> c0.listed, gas |-> c0.gas]
-    /\ tokFails = FALSE /\ legacy = c0.legacy
+    /\ tokFails = FALSE /\ legacy = c0.legacy /\ regs = {c : c \in Chan}
     /\ pkts = IF c0.legacy THEN <<[ch |-> "ch1", denom |-> "nat", amt |-> 1, sender |-> "u1", done |-> FALSE],
                                    [ch |-> "ch1", denom |-> "tok", amt |-> 1, sender |-> "u1", done |-> FALSE]>> ELSE <<>>
     /\ now = [h |-> 0, t |-> 0] /\ out = <<>> /\ ack = "none"
@@ -124,7 +124,7 @@ DoTokFail(on) ==
 Call(e, action) ==
   \/ /\ action
      /\ ev' = [e EXCEPT !.ok = TRUE]
-     /\ UNCHANGED cfgv
+     /\ UNCHANGED <<cfgv, regs>>
      /\ sched' = IF GenMode THEN Append(sched, e) ELSE sched
   \/ /\ GenMode /\ GenFail /\ ~ENABLED action
      /\ ev' = [e EXCEPT !.ok = FALSE]
@@ -151,7 +151,7 @@ AMigrate == Ready /\ \E g \in Gases \ {0} :
   Call(Ev("migrate", "creator", [gas |-> g]), DoMigrate(g))
 ATokFail == Ready /\ \E on \in BOOLEAN :
   /\ DoTokFail(on)
-  /\ ev' = Ev("tokfail", "env", [on |-> on]) /\ UNCHANGED cfgv
+  /\ ev' = Ev("tokfail", "env", [on |-> on]) /\ UNCHANGED <<cfgv, regs>>
   /\ sched' = IF GenMode THEN Append(sched, ev') ELSE sched
 
 \* a v1 contract is migrated first (code and storage are swapped atomically)
